@@ -262,6 +262,9 @@ def r1_escape_parse(ctx):
     hn = g._handler_nodes.get((id(hcov), ()))
     need(hn is not None, 'C14.R1: handler node missing')
     reach = graph.reachable([hn], efilter=graph.normal_only)
+    # paths that no execution takes because of what the locals hold when the handler is entered (a phase result that is still None) do not count
+    feasible = {id(x) for x in graph.reachable_with_values([g.entry])}
+    reach = [x for x in reach if id(x) in feasible]
     leaves_normally = any(x is g.exit for x in reach) or any((not any(fr.kind == 'try' and getattr(fr, 'handler', None) is hcov for fr in x.frames)) and x is not hn for x in reach)
     raises = [x for x in reach if x.kind == 'stmt' and isinstance(x.ast, ast.Raise)]
     toks = set()
